@@ -103,6 +103,7 @@ def run(tier):
     drivers(chk, F, classes)
     registration(chk, F, classes)
     class_dimensions(chk, F, classes)
+    storage_columns(chk, F)
     chk.floor("python classes", len(classes), 56)
     chk.floor("forwarding methods", chk.analysed.get("forwarding methods", 0), 56 * 30)
     chk.floor("operator dunders", chk.analysed.get("operator dunders", 0), 56 * 4)
@@ -482,6 +483,28 @@ def drivers(chk, F, classes):
             else:
                 chk.ob("driver|%s|rows" % name, its == {"row_iter"}, "matrix results are converted row by row (no transposition)", body_loc(F, b),
                        found=sorted(its), required=["row_iter"], nontrivial=False)
+
+
+def storage_columns(chk, F):
+    """vectors are handed to Python as `m.data.0[0]` — the single column of the storage: any other constant index reads past it"""
+    n_, bad = 0, []
+    for b in F.bodies.values():
+        if not b["path"].startswith("python::"):
+            continue
+        for n in walk.walk_body(b):
+            if n.get("k") != "index":
+                continue
+            base = n["a"]
+            while base.get("k") in ("addr",) or (base.get("k") == "un" and base.get("op") == "deref"):
+                base = base["a"]
+            if base.get("k") == "field" and base.get("name") == "0" and base["a"].get("k") == "field" and base["a"].get("name") == "data":
+                idx = n["b"]
+                n_ += 1
+                if not (idx.get("k") == "lit" and idx["lit"].get("v") == "0"):
+                    bad.append("%s: %s" % (F.loc(n["l"]), expr_s(n)[:60]))
+    chk.ob("storage|single-column", not bad, "a vector part is converted from the single column `data.0[0]` of its storage", "src/python",
+           found=sorted(set(bad))[:3] or "%d conversions read column 0" % n_, nontrivial=False)
+    chk.count("vector storage conversions", n_)
 
 
 def class_dimensions(chk, F, classes):
